@@ -27,7 +27,7 @@ from vlib import Ctx, bag, plain
 
 ID = "C03"
 LEVEL = "proof"
-MODULES = ["SqlframeModel.Props.C03"]
+MODULES = ["SqlframeModel.Codec.C03", "SqlframeModel.Props.C03"]
 GEN = ["Actions"]
 SOURCES = ["SqlframeModel/Props/C03.lean", "SqlframeModel/Lemmas/C03.lean", "SqlframeModel/Impl/C03.lean"]
 FLAGS = list(itertools.product([True, False], [True, False], [True, False]))  # optimize, quote_identifiers, pretty
@@ -326,6 +326,12 @@ def lateral_alias(c: dict) -> bool:
             cols = [s["b"] if x == s["a"] else x for x in cols]
         elif k == "drop":
             cols = [x for x in cols if x not in s["ns"]]
+        elif k == "toDF":
+            if any(n in cols and cols.index(n) != i for i, n in enumerate(s["names"])):
+                return True
+            cols = list(s["names"])
+        elif k == "replace":
+            return True
     return False
 
 
@@ -344,6 +350,8 @@ def order_key_dropped(c: dict) -> bool:
             if k == "withColumnRenamed" and s["a"] in keys:
                 return True
             if k == "drop" and set(s["ns"]) & keys:
+                return True
+            if k == "toDF":
                 return True
     return False
 
